@@ -20,7 +20,7 @@ from collections import deque
 from graphlib import TopologicalSorter
 from typing import Any, Dict, List
 
-MSG_DEFAULT = {"kind": "valid", "task": "ta0", "body": "wait", "outcome": "ret", "timeout": 0, "savefail": False, "ackfail": False}
+MSG_DEFAULT = {"kind": "valid", "task": "ta0", "body": "wait", "outcome": "ret", "timeout": 0, "savefail": False, "ackfail": False, "tid": 0, "slowcancel": False}
 MW_DEFAULT = {"pre": "", "onerr": "", "post": "", "postsave": "", "replace": False}
 DEP_DEFAULT = {"style": "gen", "cached": True, "parent": 0, "suspend": False, "fail": False}
 
@@ -98,6 +98,9 @@ def normalize(cfg: Dict[str, Any]) -> Dict[str, Any]:
     c.setdefault("propagate", True)
     c["bsusp"] = bool(c.pop("backend_suspend", c.get("bsusp", False)))
     c["msgs"] = [{**MSG_DEFAULT, **m} for m in c.get("msgs", [])]
+    for i, m in enumerate(c["msgs"], start=1):
+        if not m["tid"]:
+            m["tid"] = i          # task id index; a message may carry the id of an earlier one (redelivery / retry)
     c["M"] = len(c["msgs"])
     c["mws"] = [{**MW_DEFAULT, **m} for m in c.get("mws", [])]
     decl = [{**DEP_DEFAULT, **d} for d in (c.get("deps_decl") or c.get("deps") or [])]
